@@ -81,7 +81,8 @@ FreshWhileActive(o) == FreshWithin(o, SlackMs)
 
 \* C13: stops issuing repository modifications: a non-lock modification <<process, time, cancelled, frozen>> never
 \* reaches the storage (the layer below the connection limiting backend) with the lock context of its process
-\* already cancelled - in particular not after it waited at the freeze gate while the forced refresh failed
+\* already cancelled (or after the lock code reported that its forced refresh failed, which it does just before
+\* it cancels the context) - in particular not after it waited at the freeze gate while the forced refresh failed
 NoWriteAfterCancel(mods) == \A k \in 1..Len(mods) : mods[k][3] = 0
 
 \* C13: removes its lock when it finishes
